@@ -20,7 +20,8 @@ def run(tier):
         if p.returncode != 0:
             raise vlib.ToolError("table generator: " + p.stderr + p.stdout)
     dump = os.path.join(d, "dump.ndjson")
-    _, err = vlib.run_harness(binary, ["sweep-ciphers", dump])
+    nrand = 400_000_000 if tier == "thorough" else 50_000_000
+    _, err = vlib.run_harness(binary, ["sweep-ciphers", dump, str(nrand)])
     _, res, lines = vlib.tlc_single(PROP, "trace", "Trace_C12", env={"VERIF_IN": dump}, workers=1, timeout=600, out_name="verdict.ndjson", d=d)
     rep.add_tlc("Trace_C12", res)
     if not lines or lines[-1].get("what") != "done":
@@ -28,7 +29,7 @@ def run(tier):
     rows = [r for r in vlib.read_ndjson(dump)]
     nrows = sum(1 for r in rows if r["kind"] == "row")
     nnames = sum(1 for r in rows if r["kind"] == "name")
-    rep.count(65536 * 4 + nnames * 2)
+    rep.count(65536 * 4 + nnames * 2 + nrand)
     for r in rows:
         if r["kind"] == "row":
             rep.nontrivial(("row", r["hex"]))
@@ -53,8 +54,8 @@ def run(tier):
     rep.sample([r for r in rows if r["kind"] == "name"][200])
     return rep.finish("model_checking",
                       "all 65536 ids through the four id routes; all %d registry rows x 10 columns + 3 derived sizes; %d name queries "
-                      "(every name + ~20 perturbations each) through both name routes; the table itself checked for unique ids/names, "
-                      "pinned rows, name-token agreement; distinct = rows and (query, answer) pairs" % (nrows, nnames), exhaustive=True)
+                      "(every name + ~30 perturbations each) through both name routes and %d seeded pseudo-random non-registry strings; the table itself checked for unique ids/names, "
+                      "pinned rows, name-token agreement; distinct = rows and (query, answer) pairs" % (nrows, nnames, nrand), exhaustive=True)
 
 
 def replay(path):
